@@ -7,6 +7,7 @@ import-time state, reports over a pipe and exits.
 import json, os, select, signal, sys, time, traceback, zlib, random, hashlib
 
 VERIF = os.path.dirname(os.path.dirname(os.path.abspath(__file__)))
+OUT = os.environ.get("VERIF_OUT", VERIF)   # scratch runs against mutants write their evidence/replays elsewhere
 REPO = os.environ.get("VERIF_REPO", "/repo")
 NPROC = int(os.environ.get("VERIF_NPROC", "16"))
 
@@ -231,7 +232,7 @@ def finish(prop, tier, seed, results, rule, t0, exhaustive=False, assumptions=()
                 samples.append(s)
     new = {k: v for k, v in viol.items() if k not in known}
     seen_known = {k: v for k, v in viol.items() if k in known}
-    outdir = os.path.join(VERIF, "out", "replays", prop)
+    outdir = os.path.join(OUT, "out", "replays", prop)
     lines = []
     for k, v in sorted(seen_known.items()):
         lines.append(f"KNOWN-FINDING: property={prop} key={k} :: {known[k][1]} (seen {v[0]}x)")
@@ -277,8 +278,8 @@ def finish(prop, tier, seed, results, rule, t0, exhaustive=False, assumptions=()
     ev = {"property_id": prop, "tier": tier, "seed": int(seed), "level": "exploration", "coverage": cov,
           "assumptions": list(assumptions), "wall_s": round(time.time() - t0, 2), "violations": len(new)}
     if replay_only_key is None:
-        os.makedirs(os.path.join(VERIF, "evidence"), exist_ok=True)
-        with open(os.path.join(VERIF, "evidence", prop + ".json"), "w") as f:
+        os.makedirs(os.path.join(OUT, "evidence"), exist_ok=True)
+        with open(os.path.join(OUT, "evidence", prop + ".json"), "w") as f:
             json.dump(ev, f, indent=1, sort_keys=True)
     for l in lines:
         print(l)
